@@ -390,6 +390,7 @@ Process::Process()
 	_hasExited = false;
 	_ready = false;
 	_pid = -1;
+	_exitstat = -1;
 	_detached = false;
 	if(pipe(_pipe_in)==-1 || pipe(_pipe_out)==-1 || pipe(_pipe_err)==-1)
 	{
@@ -596,7 +597,7 @@ int Process::wait()
 		return 0;
 	}
 	_hasExited = true;
-	_exitstat = WEXITSTATUS(stat);
+	_exitstat = WIFEXITED(stat) ? WEXITSTATUS(stat) : 128 + WTERMSIG(stat);
 	return _exitstat;
 }
 
@@ -611,9 +612,7 @@ bool Process::finished()
 		return true;
 	if(p == 0)
 		return false;
-	bool end = WIFEXITED(stat);
-	if(end)
-		_exitstat = WEXITSTATUS(stat);
+	_exitstat = WIFEXITED(stat) ? WEXITSTATUS(stat) : 128 + WTERMSIG(stat);
 	_hasExited=true;
 	return true;
 }
